@@ -151,6 +151,17 @@ CHECKS = {
              "joined across the four builds and must agree.",
         design="DESIGN.md §5 C20",
         note=TRUST + "; std's libm on this machine is the oracle the statement names"),
+    "C09": dict(
+        technique="TLA+ state machine Xform: the transform monoid over exact integer affine matrices (generators defined "
+                  "geometrically); TLC checks composition, determinant and inverse laws on every path and exports every "
+                  "path; trace validation of the real constructors / compose / then / inverse / determinant / transpose",
+        text="TLC explores every product of up to 2 (thorough: 3) of 16 integer generators composed on either side, checks "
+             "composition-as-sequencing, multiplicative determinants, adjugate inverses and orthogonality on the spec, and "
+             "exports each path; the real code rebuilds each path with its constructors through compose and then, and its "
+             "matrix, probe images, determinant, inverse, both inverse compositions and transpose are judged by TLC against "
+             "the exact product.",
+        design="DESIGN.md §5 C09",
+        note=TRUST + "; known finding: apply() on vectors includes the translation"),
 }
 
 NOT_YET = "check not built yet in this round (see DESIGN.md §9 for the order of work)"
